@@ -4,6 +4,7 @@
 // (matched, bytes consumed) is compared with (unit in set(r), length of the unit) from an independent
 // model: cpp/oracles/utf_codec.hpp (decoder), unit_sets.hpp (units, sets), ascii_classes.hpp (documented sets).
 #include <tao/pegtl.hpp>
+#include <tao/pegtl/buffer_input.hpp>
 #include <tao/pegtl/contrib/abnf.hpp>
 #include <tao/pegtl/contrib/uint16.hpp>
 #include <tao/pegtl/contrib/uint32.hpp>
@@ -61,9 +62,32 @@ namespace
    // the only code instantiated per rule: the real top-level parse of the real rule. rewind_mode::required (in this
    // tree parse<> defaults to optional, where a failing seq<> may leave the cursor anywhere) so that "no match" has a
    // defined cursor position -- unchanged -- and the monitor can insist on it; success and its length do not depend on the mode.
+   // incremental flavour: the same bytes handed to the rule through a buffer_input whose reader delivers one byte per call
+   // (Chunk 1), so that every multi-byte unit straddles the end of the buffered data; the consumed count is copied back
+   struct byte_reader
+   {
+      const char* p;
+      const char* e;
+      std::size_t operator()( char* buf, const std::size_t len )
+      {
+         if( p == e || len == 0 ) return 0;
+         *buf = *p++;
+         return 1;
+      }
+   };
+   bool g_incremental = false;
+   long g_incremental_runs = 0;
+
    template< typename Rule >
    bool parse_rule( input_t& in )
    {
+      if( g_incremental ) {
+         ++g_incremental_runs;
+         pegtl::buffer_input< byte_reader, pegtl::eol::lf_crlf, const char*, 1 > bi( "c10", in.size() + 16, byte_reader{ in.current(), in.end() } );
+         const bool ok = pegtl::parse< Rule, pegtl::nothing, pegtl::normal, pegtl::apply_mode::action, pegtl::rewind_mode::required >( bi );
+         in.bump( bi.byte() );
+         return ok;
+      }
       return pegtl::parse< Rule, pegtl::nothing, pegtl::normal, pegtl::apply_mode::action, pegtl::rewind_mode::required >( in );
    }
 
@@ -136,13 +160,14 @@ namespace
       return "no match with " + std::to_string( -1 - v ) + " bytes consumed";
    }
 
-   [[gnu::noinline]] void mismatch( entry& r, const char* b, std::size_t n, int exp, int got )
+   [[gnu::noinline]] void mismatch( entry& r, const char* b, std::size_t n, int exp, int got, const bool incremental = false )
    {
-      const char* cls = g_overread ? "over-read" : got == -1000 ? "exception" : ( exp >= 0 && got < 0 ) ? "false-reject" : ( exp < 0 && got >= 0 ) ? "false-accept" : "wrong-length";
+      const std::string cls0 = g_overread ? "over-read" : got == -1000 ? "exception" : ( exp >= 0 && got < 0 ) ? "false-reject" : ( exp < 0 && got >= 0 ) ? "false-accept" : "wrong-length";
+      const std::string cls = cls0 + ( incremental ? "|incremental-input" : "" );
       g_overread = false;
       const std::string hx = verif::hex( b, n );
       V.violation( "C10", "C10|" + r.name + "|" + cls,
-                   r.name + " on the " + std::to_string( n ) + "-byte input " + ( n ? hx : std::string( "(empty)" ) ) + ": expected " + describe( exp ) + ", got " + describe( got ),
+                   r.name + ( incremental ? " through a buffer_input fed one byte per read" : "" ) + " on the " + std::to_string( n ) + "-byte input " + ( n ? hx : std::string( "(empty)" ) ) + ": expected " + describe( exp ) + ", got " + describe( got ),
                    "{\"rule\":\"" + verif::jesc( r.name ) + "\",\"input_hex\":\"" + hx + "\",\"expected\":" + std::to_string( exp ) + ",\"got\":" + std::to_string( got ) + "}" );
    }
 
@@ -154,6 +179,14 @@ namespace
       if( eok ) ++r.acc;
       else ++r.rej;
       if( got != exp || g_overread ) mismatch( r, b, n, exp, got );
+      // every fourth judgement of a multi-byte encoding on two or more bytes is repeated through the incremental input
+      static unsigned rota = 0;
+      if( n >= 2 && r.e != enc::bytes && r.e != enc::uint8 && ( ++rota & 3 ) == 0 ) {
+         g_incremental = true;
+         const int got2 = run_on( r.run, b, b + n );
+         g_incremental = false;
+         if( got2 != exp ) mismatch( r, b, n, exp, got2, true );
+      }
    }
 
    [[maybe_unused]] inline void judge_seq( entry& r, const char* b, const std::size_t n )
@@ -1430,8 +1463,9 @@ int main( int argc, char** argv )
       if( r.acc ) V.count( r.family + ":" + r.kind + ":accept", r.acc );
       if( r.rej ) V.count( r.family + ":" + r.kind + ":reject", r.rej );
    }
-   V.evaluations += evals;
+   V.evaluations += evals + g_incremental_runs;
    V.nontrivial += evals - g_empty_inputs;
+   if( g_incremental_runs ) V.count( "runs:incremental-input (multi-byte encodings, one byte per read)", g_incremental_runs );
    if( std::getenv( "C10_DEBUG" ) )
       for( const entry& r : g_rules ) std::fprintf( stderr, "%-70s acc %10ld rej %10ld\n", r.name.c_str(), r.acc, r.rej );
    V.finish();
